@@ -1,5 +1,6 @@
 """C20 - wrapper strategies are transparent to the strategy they wrap."""
 import ast
+from ..astutil import inline_temporaries as _it
 
 from ..astutil import FuncTree, dominates, inline_temporaries
 from ..common import norm_stmt, site_id
@@ -154,37 +155,50 @@ def run(p, report, tier):
         report.add("R20.2", ent, "-inf for candidates outside the subset", f"{sw.file}:{sw.node.lineno}", False,
                    detail="no -inf store into the returned utilities")
     check_subsampling_translation(p, report, sw, ent, tree, "R20.2")
-    # the ratio is converted to a count over the same collection that clips it and is drawn from
+    # the subset size is computed from the population that is drawn from (in each candidates mode)
+    swt = FuncTree(sw.node)
     n_ratio = 0
-    for blk_owner in ast.walk(sw.node):
-        for field in ("body", "orelse"):
-            blk = getattr(blk_owner, field, None)
-            if not isinstance(blk, list):
-                continue
-            for i, st in enumerate(blk):
-                ceils = [c for b in st.body if isinstance(b, ast.Assign) for c in ast.walk(b.value)
-                         if isinstance(c, ast.Call) and c01.callname(c) == "ceil"
-                         and any(isinstance(x, ast.Call) and c01.callname(x) == "len" for x in ast.walk(c))] \
-                    if isinstance(st, ast.If) else []
-                if not ceils:
-                    continue
-                measured = [ast.unparse(x.args[0]) for x in ast.walk(ceils[0]) if isinstance(x, ast.Call)
-                            and c01.callname(x) == "len" and x.args]
-                clip = None
-                for nx in blk[i + 1:]:
-                    if isinstance(nx, ast.Assign) and isinstance(nx.value, ast.Call) and c01.callname(nx.value) == "min":
-                        clip = [ast.unparse(x.args[0]) for x in ast.walk(nx.value) if isinstance(x, ast.Call)
-                                and c01.callname(x) == "len" and x.args]
-                        break
-                n_ratio += 1
-                ok = bool(measured) and clip is not None and measured[:1] == clip[:1]
-                report.add("R20.2", ent, f"ratio converted over the collection that is clipped: `{norm_stmt(ceils[0], 50)}`",
-                           f"{sw.file}:{ceils[0].lineno}", ok,
-                           detail=f"both measure `{measured[0]}`" if ok else
-                           f"the ratio is applied to len({measured[0] if measured else '?'}) but the count is clipped to "
-                           f"len({clip[0] if clip else '?'}): the subset does not have the documented size")
-    if n_ratio < 2:
-        raise AnalysisError("SubSamplingWrapper.query: ratio-to-count conversions vanished")
+    for ch in [c for c in ast.walk(sw.node) if isinstance(c, ast.Call) and c01.callname(c) == "choice"]:
+        kw = kwmap(ch)
+        pop = kw.get("a", ch.args[0] if ch.args else None)
+        size = kw.get("size", ch.args[1] if len(ch.args) > 1 else None)
+        if pop is None or not isinstance(size, ast.Name):
+            continue
+        ch_stmt = swt.stmt_of(ch)
+        # statements of the same top-level candidates-mode branch that precede the draw
+        chain = swt.ancestors(ch_stmt)
+        top = None
+        for (s_, owner, field, idx) in chain:
+            if isinstance(owner, ast.If) and "candidates is None" in ast.unparse(owner.test):
+                top = (owner, field)
+        region = getattr(top[0], top[1]) if top else sw.node.body
+        lens = set()
+        for st in region:
+            for x in ast.walk(st):
+                if isinstance(x, ast.Assign) and any(isinstance(t, ast.Name) and t.id == size.id for t in x.targets) \
+                        and x.lineno < ch_stmt.lineno:
+                    for c in ast.walk(x.value):
+                        if isinstance(c, ast.Call) and c01.callname(c) == "len" and c.args:
+                            lens.add(ast.unparse(c.args[0]))
+        popt = ast.unparse(pop)
+        aliases = {popt}
+        for x in ast.walk(sw.node):
+            if isinstance(x, ast.Assign) and len(x.targets) == 1 and ast.unparse(x.targets[0]) == popt:
+                v = x.value
+                if isinstance(v, ast.Name):
+                    aliases.add(v.id)
+                if isinstance(v, ast.Call) and c01.callname(v) in ("range", "arange") and v.args and \
+                        isinstance(v.args[0], ast.Call) and c01.callname(v.args[0]) == "len" and v.args[0].args:
+                    aliases.add(ast.unparse(v.args[0].args[0]))
+        n_ratio += 1
+        ok = bool(lens) and lens <= aliases
+        report.add("R20.2", ent, f"subset size of {site_id(ch, 50)} computed from the population drawn from",
+                   f"{sw.file}:{ch.lineno}", ok,
+                   detail=f"size from len({sorted(lens)}) ; population `{popt}`" if ok else
+                   f"the subset size is computed from len({sorted(lens - aliases)}) but the draw is from `{popt}`: the subset "
+                   "does not have the documented size")
+    if n_ratio < 3:
+        raise AnalysisError("SubSamplingWrapper.query: subset draws vanished")
     # ---------------- R20.3
     sa = p.get_class("SingleAnnotatorWrapper")
     g = sa.methods.get("_get_order_preserving_s_query")
@@ -251,10 +265,10 @@ def run(p, report, tier):
         report.add("R20.3", f.qual, f"operand of {site_id(S, 50)} depends on earlier picks", f"{f.file}:{S.lineno}",
                    bool(carried), detail=", ".join(sorted(carried)))
         nan_masks = [n for n in ast.walk(L) if isinstance(n, ast.Assign) and c01.is_nan_expr(n.value)
-                     and isinstance(n.targets[0], ast.Subscript) and (index_names(n.targets[0]) & (rnames | acc))]
+                     and isinstance(n.targets[0], ast.Subscript) and (index_names(n.targets[0]) & c01.pick_derived(L, ff, rnames | acc))]
         report.add("R20.3", f.qual, f"chosen pair set to NaN after {site_id(S, 40)}", f"{f.file}:{S.lineno}", bool(nan_masks))
     for f in (pw, sw, g, q):
-        da = DefiniteAssignment(f.node).run()
+        da = DefiniteAssignment(_it(f.node)).run()
         report.add("R20.3" if f in (g, q) else ("R20.1" if f is pw else "R20.2"), f.qual, "all locals bound before use",
                    f"{f.file}:{f.node.lineno}", not da.reports, detail="; ".join(da.reports), nontrivial=False)
     report.assumptions += ["numerical equality of wrapped and unwrapped utilities is not decided",
